@@ -482,7 +482,13 @@ func (r *c05Run) dfs(ctx sdk.Context, s c05State, depth, maxDepth int, path []st
 		r.st.Evaluations++
 		r.apply(c, &ns, op, np)
 		o := r.observe(c)
-		k := fmt.Sprintf("%v|%s|%s|%v|%v", o.res, o.shares, o.mine, ns.onlyAllAsset, ns.noSwap)
+		// the key also carries the actor's wallet and the rebalance treasury: the round-trip clause judges
+		// the wallet, and bonuses depend on the treasury (states equal in reserves and shares but not in
+		// these have different futures — merging them would be unsound)
+		pl, _ := r.e.w.App.AmmKeeper.GetPool(c, r.poolId)
+		tr := r.e.w.App.BankKeeper.GetAllBalances(c, sdk.MustAccAddressFromBech32(pl.RebalanceTreasury))
+		wl := r.e.w.App.BankKeeper.GetAllBalances(c, r.actor)
+		k := fmt.Sprintf("%v|%s|%s|%v|%v|%s|%s", o.res, o.shares, o.mine, ns.onlyAllAsset, ns.noSwap, wl, tr)
 		r.keys[k] = true
 		kk := fmt.Sprintf("%s#%d", k, maxDepth-depth-1)
 		if r.keys[kk] {
